@@ -36,6 +36,25 @@ TA gen_ta(Rng& r, const Pool& pool, const TAOpts& o) {
 	std::vector<mdl::Sym> nullary, others;
 	for (const mdl::Sym& s : mine) (s.second == 0 ? nullary : others).push_back(s);
 	int m = o.max_rules >= 0 ? r.range(0, o.max_rules) : r.range(0, 2 * n + 3);
+	if (flavor == 6 && n >= 3 && !nullary.empty() && !others.empty()) {
+		// layered with back edges: layer 0 owns the leaf rules, every higher state is first justified by a rule over
+		// LOWER states (often of arity >= 2) and additionally owns rules that lead back to itself or upwards (often of
+		// lower arity); the only final state is the top one, several steps above the leaves
+		std::vector<mdl::Sym> unary, wide; for (const mdl::Sym& s : others) (s.second == 1 ? unary : wide).push_back(s);
+		int l0 = r.range(1, n > 4 ? 2 : 1);
+		for (int i = 0; i < l0; ++i) { Rule x; x.sym = r.pick(nullary).first; x.parent = st[size_t(i)]; a.rules.insert(x); if (r.chance(1, 3)) { Rule y; y.sym = r.pick(nullary).first; y.parent = st[size_t(i)]; a.rules.insert(y); } }
+		for (int i = l0; i < n; ++i) {
+			const mdl::Sym& s = (!wide.empty() && r.chance(2, 3)) ? r.pick(wide) : r.pick(others);
+			Rule x; x.sym = s.first; x.parent = st[size_t(i)]; for (int k = 0; k < s.second; ++k) x.ch.push_back(st[size_t(r.below(uint64_t(i)))]); a.rules.insert(x);
+			int back = r.range(0, 2);
+			for (int b = 0; b < back; ++b) {
+				const mdl::Sym& t = (!unary.empty() && r.chance(2, 3)) ? r.pick(unary) : r.pick(others);
+				Rule y; y.sym = t.first; y.parent = st[size_t(r.range(l0, i))]; for (int k = 0; k < t.second; ++k) y.ch.push_back(st[size_t(r.range(i, n - 1))]); a.rules.insert(y);
+			}
+		}
+		a.finals.insert(st[size_t(n - 1)]); if (r.chance(1, 4)) a.finals.insert(r.pick(st));
+		return a;
+	}
 	if (flavor == 1) {                      // leaf-only language
 		for (int i = 0; i < m && !nullary.empty(); ++i) { Rule x; x.sym = r.pick(nullary).first; x.parent = r.pick(st); a.rules.insert(x); }
 	} else {
